@@ -3,7 +3,7 @@
 
   Model: MvModel/Query.lean (mirror of /repo/src/search/parser.rs and of the evaluation half of
   /repo/src/search/mod.rs).  Lemmas: MvModel/QueryLemmas.lean (fuel), QuerySem.lean (token-level
-  semantics), QueryLex.lean (lexer), QueryDepth.lean (nesting limit).  This file: the property
+  semantics), QueryLex.lean (lexer), QueryDepth.lean (nesting limit), QueryHeight.lean (AST height).  This file: the property
   theorems only.
 
   Black boxes (`Tables`): `char::is_whitespace`, `char::is_alphanumeric`, the date parser, the
@@ -15,6 +15,7 @@
 import MvModel.QuerySem
 import MvModel.QueryLex
 import MvModel.QueryDepth
+import MvModel.QueryHeight
 import MvModel.QueryTables
 namespace Mv.Query
 open Mv.Gen.C32
@@ -315,6 +316,37 @@ theorem C32_limit_sound (T : Tables) (ci : Bool) (L : Nat) (s : Str) :
 
 example : nestCount [.lparen, .not, .word ['a'], .rparen] = 2 := by decide
 
+/-- With limit `L` the parser refuses to descend at depth `L` (no call is ever made at depth
+    `L+1`: the depth counter only grows through these two places, one level at a time) … -/
+theorem C32_depth_cut (T : Tables) (L n : Nat) (r : List Token) :
+    parseNot T (some L) (n + 1) L (.not :: r) = .error .tooDeep ∧
+    parsePrimary T (some L) (n + 1) L (.lparen :: r) = .error .tooDeep := depth_cut T L n r
+
+/-- … and every expression it returns has height at most `2·L + 3`, which bounds the recursion of
+    `Expr::evaluate`, `collect_tokens` and the destructor on parsed queries. -/
+theorem C32_ast_height (T : Tables) (ci : Bool) (L : Nat) (s : Str) (e : Expr)
+    (h : parse T ⟨some L, ci⟩ s = .ok e) : e.height ≤ 2 * L + 3 := by
+  unfold parse at h
+  cases hl : lex T s with
+  | error err => rw [hl] at h; cases h
+  | ok ts =>
+    rw [hl] at h
+    simp only [] at h
+    unfold parseTokens at h
+    cases hp : parseOr T (some L) (parseFuel ts) 0 ts with
+    | error err => rw [hp] at h; cases h
+    | ok p =>
+      obtain ⟨e', r⟩ := p
+      rw [hp] at h
+      simp only [] at h
+      cases h
+      have := (heights T L (parseFuel ts)).or 0 ts e r (Nat.zero_le _) hp
+      omega
+
+example : (Expr.or [.term (.word ['a']), .and [.not (.term (.word ['b'])), .term (.word ['c'])]]).height = 4 := by
+  with_unfolding_all rfl
+
+
 /-! ## 4. The tree as it is (constants read from /repo by tools/gen/C32.py)
 
 These two facts hold on the repaired tree (/verif/fixes/C32.diff) and fail to elaborate on a
@@ -323,22 +355,27 @@ tree without the repair, where the harness exhibits both defects on the real cod
 /-- `scope:` ignores ASCII case, and the parser has a nesting limit -/
 theorem C32_tree_repaired : cfgGen.scopeCI = true ∧ cfgGen.limit.isSome = true := by decide
 
-/-- the property on the tree as it is: total, bounded recursion, reference semantics -/
+/-- the property on the tree as it is: total, bounded recursion (of the parser and over the
+    parsed expression), reference semantics -/
 theorem C32_tree (T : Tables) (hT : T.Sane) :
     (∀ s, parse T cfgGen s ≠ .error .fuel) ∧
-    (∃ L, cfgGen.limit = some L ∧ ∀ k, L < k →
+    (∃ L, cfgGen.limit = some L ∧
+      (∀ k, L < k →
         parse T cfgGen (parenText k) = .error .tooDeep ∧ parse T cfgGen (notText k) = .error .tooDeep) ∧
+      (∀ s e, parse T cfgGen s = .ok e → e.height ≤ 2 * L + 3)) ∧
     (∀ a : Ast, a.WF T → Fits cfgGen.limit (nest 0 a) → ∀ d,
         queryMatches T cfgGen (print a) d = .ok (evalRef T d a)) := by
   refine ⟨fun s => C32_total T cfgGen s, ?_, fun a hwf hfit d => C32_semantics T hT cfgGen C32_tree_repaired.1 a hwf hfit d⟩
   cases hlim : cfgGen.limit with
   | none => have := C32_tree_repaired.2; rw [hlim] at this; cases this
   | some L =>
-    refine ⟨L, rfl, fun k hk => ?_⟩
     have hcfg : cfgGen = ⟨some L, cfgGen.scopeCI⟩ := by
       cases hc : cfgGen with
       | mk l c => rw [hc] at hlim; simp only at hlim; subst hlim; rfl
-    rw [hcfg]
-    exact (C32_depth_limit_exact T hT _ L k).2 hk
+    refine ⟨L, rfl, fun k hk => ?_, fun s e hp => ?_⟩
+    · rw [hcfg]
+      exact (C32_depth_limit_exact T hT _ L k).2 hk
+    · rw [hcfg] at hp
+      exact C32_ast_height T _ L s e hp
 
 end Mv.Query
